@@ -147,8 +147,9 @@ func SV_C02_more() {
 // sv:bounds as SV_C02_more
 // sv:outside as SV_C02_more; the validator operations of the evidence family charge the validator's stake address (the signer here)
 // sv:goal the holdings (every ledger cell owned by the party, both currencies) of every party that did not sign do not decrease
-func SV_C03_more() {
-	m := svMoreKindEnv(false)
+func SV_C03_more() { svMoreC03(svMoreKindEnv(false)) }
+
+func svMoreC03(m *svMore) {
 	tx := m.sign(false)
 	sv.Assume(m.e.validate(tx))
 	l0 := m.e.ledger()
@@ -173,8 +174,9 @@ func SV_C03_more() {
 // sv:bounds as SV_C02_more, in both regimes (admitted / delivered directly)
 // sv:outside in-memory fields of the stores; the EVM object cache is examined by SV_C17_two_step
 // sv:goal Code != 0 implies the block-level write cache and every ledger cell are unchanged
-func SV_C06_more_noop() {
-	m := svMoreKindEnv(false)
+func SV_C06_more_noop() { svMoreC06(svMoreKindEnv(false)) }
+
+func svMoreC06(m *svMore) {
 	tx := m.sign(false)
 	if sv.Choice("regime", 2) == 0 {
 		sv.Assume(m.e.validate(tx))
@@ -203,7 +205,10 @@ func SV_C06_more_noop() {
 // sv:goal no path ends in a panic, os.Exit (logger.Fatal) or application close
 func SV_C18_more_admitted() {
 	sv.CrashIsViolation("admitted-tx-crashes-node")
-	m := svMoreKindEnv(true)
+	svMoreC18Admitted(svMoreKindEnv(true))
+}
+
+func svMoreC18Admitted(m *svMore) {
 	tx := m.sign(false)
 	// the check state gets the environment gas calculator too (store gas is an
 	// arbitrary number, as for the deliver state)
@@ -223,7 +228,10 @@ func SV_C18_more_admitted() {
 // sv:goal no path ends in a panic, os.Exit (logger.Fatal) or application close
 func SV_C18_more_unvalidated() {
 	sv.CrashIsViolation("delivered-tx-crashes-node")
-	m := svMoreKindEnv(true)
+	svMoreC18Unvalidated(svMoreKindEnv(true))
+}
+
+func svMoreC18Unvalidated(m *svMore) {
 	tx := m.sign(sv.Choice("nosig", 2) == 1)
 	d := svDeliver(m.e.app, tx)
 	sv.Cover(d.Code == 0, "delivered-ok")
